@@ -116,6 +116,7 @@ var (
 		pr.POutlineWidth:      borderWidth,
 		pr.PColumnWidth:       columnWidth,
 
+		pr.PBorderImageSource: borderImageSource,
 		pr.PBorderImageSlice:  borderImageSlice,
 		pr.PBorderImageWidth:  borderImageWidth,
 		pr.PBorderImageOutset: borderImageOutset,
@@ -454,9 +455,20 @@ func borderImageSlice(_ *ComputedStyle, _ pr.KnownProp, _value pr.CssProperty) p
 	return append(computedValues, fill)
 }
 
+// Compute lengths in gradient border-image-source.
+func borderImageSource(computer *ComputedStyle, name pr.KnownProp, _value pr.CssProperty) pr.CssProperty {
+	return backgroundImage(computer, name, pr.Images{_value.(pr.Image)}).(pr.Images)[0]
+}
+
 // Compute the “border-image-width“ property.
-func borderImageWidth(_ *ComputedStyle, _ pr.KnownProp, _value pr.CssProperty) pr.CssProperty {
-	values := _value.(pr.Values)
+func borderImageWidth(computer *ComputedStyle, _ pr.KnownProp, _value pr.CssProperty) pr.CssProperty {
+	values := make(pr.Values, len(_value.(pr.Values)))
+	for i, value := range _value.(pr.Values) {
+		if value.Unit != pr.Scalar {
+			value = length_(computer, value, -1, false)
+		}
+		values[i] = value
+	}
 	switch len(values) {
 	case 1:
 		return values.Repeat(4)
